@@ -385,6 +385,11 @@ class Engine:
 
     def member(self, st: State, base, name: str, n=None):
         from .absmap import MapIt, AbsMap
+        mh = getattr(self.cur_contract, 'member_hook', None)
+        if mh is not None:
+            r = mh(self, st, base, name, n)
+            if r is not None:
+                return r
         if isinstance(base, MapIt):
             m = st.heap[base.oid]
             if name == 'second':
@@ -601,7 +606,7 @@ class Engine:
             elif op == '*':
                 outs.append((s, self.deref(s, v)))
             else:
-                raise Unsupported(f'unary {op}')
+                raise Unsupported(f'unary {op} at L{n.get("line")}')
         return outs
 
     def deref(self, st, v):
@@ -736,6 +741,11 @@ class Engine:
         raise Unsupported(f'binop {op}')
 
     def equal(self, st, a, b):
+        eh = getattr(self.cur_contract, 'equal_hook', None)
+        if eh is not None:
+            r = eh(self, st, a, b)
+            if r is not None:
+                return r
         from .absmap import MapIt, it_equal
         if isinstance(a, MapIt) and isinstance(b, MapIt):
             return it_equal(st, a, b)
@@ -890,8 +900,33 @@ class Engine:
     e_CXXConstCastExpr = e_CXXStaticCastExpr
 
     def e_ArraySubscriptExpr(self, n, st):
+        m = n.c[0]
+        while m.k in ('ImplicitCastExpr', 'ParenExpr') and m.c:
+            m = m.c[0]
+        if m.k == 'MemberExpr' and m.name == 'ob_item' and m.c:
+            # expansion of the CPython macro Py{Tuple,List}_GET_ITEM(op, i) = (_PyX_CAST(op)->ob_item[i]); the cast macro is
+            # `(assert(PyX_Check(op)), (PyXObject*)(op))` - the debug assertion is dropped, the access is handed to the
+            # contract's external contract of the macro (unchecked borrowed access: index obligation there)
+            c = m.c[0]
+            while c.k in ('ImplicitCastExpr', 'ParenExpr') and c.c:
+                c = c.c[0]
+            if c.k == 'BinaryOperator' and c.get('op') == ',' and any(d.name == '__assert_fail' for d in self.walk(c.c[0])):
+                c = c.c[1]
+            while c.k in ('ImplicitCastExpr', 'ParenExpr', 'CStyleCastExpr') and c.c:
+                c = c.c[0]
+            name = 'PyList_GET_ITEM' if 'PyListObject' in (m.c[0].t or '') else 'PyTuple_GET_ITEM'
+            hook = getattr(self.cur_contract, 'call_hook', None)
+            r = hook(self, st, name, [c, n.c[1]], n) if hook is not None else None
+            if r is None:
+                raise Unsupported(f'{name} macro expansion without an external contract in this function')
+            return r
         outs = []
         for s, (base, idx) in self.ev_seq(n.c[:2], st):
+            sh = getattr(self.cur_contract, 'subscript_hook', None)
+            hv = sh(self, s, base, idx, n) if sh is not None else None
+            if hv is not None:
+                outs.append((s, hv))
+                continue
             if isinstance(base, ElemRef):   # children[i] on `const py::object children[]` = &agenda[k]
                 outs.append((s, self.read_place(s, ('elem', base.oid, base.idx + as_int(idx)))))
             elif isinstance(base, Ptr) and base.oid is not None and isinstance(s.heap.get(base.oid), (NodeVec, ScalarVec, PairVec)):
